@@ -240,7 +240,7 @@ pub mod common { pub mod splice {
             let n = nondet_usize();
             assume(n <= len && SRC_POS + n <= LOGN);
             if STEPS >= MAX_STEPS { assume(n == 0); }
-            if n == 0 { SRC_EOF = true; }
+            if n == 0 && len > 0 { SRC_EOF = true; }   // splice(.., len = 0) returns 0 without having looked at the socket
             SRC_POS += n; PIPE += n;
             ready(Ok(n))
         } else {
